@@ -267,3 +267,63 @@ Theorem transform_merge_ports_keeps_nonports :
   nth j (fst (merge_loop FIX_MERGE_PORTS js nb i objs v)) None = nth j objs None.
 Proof. exact merge_fixed_keeps_nonports. Qed.
 Print Assumptions transform_merge_ports_keeps_nonports.
+
+(* ... and the values between non-port objects: for every loop run (visited
+   positions js below nb, first port i), a cell whose row and column are
+   non-port objects other than the first port is never written *)
+Theorem transform_merge_ports_keeps_values :
+  forall nb i (objs : list oref) a b js v,
+  (i < nb)%nat -> (b < nb)%nat -> a <> i -> b <> i ->
+  is_nvswitch (nth a objs None) = false -> is_nvswitch (nth b objs None) = false ->
+  (forall j, In j js -> (j < nb)%nat) ->
+  nth (a * nb + b) (snd (merge_loop FIX_MERGE_PORTS js nb i objs v)) 0%N = nth (a * nb + b) v 0%N.
+Proof. intros. apply (merge_loop_values_untouched FIX_MERGE_PORTS nb i objs a b); auto. Qed.
+Print Assumptions transform_merge_ports_keeps_values.
+
+(* LINKS, every case: EINVAL unless bandwidth; the diagonal is zeroed; if all
+   cells are then 0 nothing else changes; otherwise the divider d is the
+   smallest positive cell, ENOENT if some cell is not a multiple (the zeroed
+   diagonal stays), else every cell x becomes x/d with (x/d)*d = x *)
+Theorem transform_links :
+  forall p, wf_pdist p ->
+  let nb := p_nb p in
+  let v0 := zero_diag nb nb (p_values p) in
+  let d := smallest_positive v0 in
+  (N.land (p_kind p) HWLOC_DISTANCES_KIND_VALUE_BANDWIDTH = 0%N -> transform_links p = (p, Err EINVAL)) /\
+  (N.land (p_kind p) HWLOC_DISTANCES_KIND_VALUE_BANDWIDTH <> 0%N ->
+     (d = 0%N -> transform_links p = (PDist (p_id p) nb (p_objs p) (p_kind p) v0, Ok tt) /\ Forall (fun x => x = 0%N) v0) /\
+     (d <> 0%N -> In d v0 /\ Forall (fun x => x = 0%N \/ (d <= x)%N) v0 /\
+        ((exists x, In x v0 /\ (x mod d <> 0)%N) ->
+           transform_links p = (PDist (p_id p) nb (p_objs p) (p_kind p) v0, Err ENOENT)) /\
+        (Forall (fun x => (x mod d = 0)%N) v0 ->
+           transform_links p = (PDist (p_id p) nb (p_objs p) (p_kind p) (map (fun x => (x / d)%N) v0), Ok tt) /\
+           Forall (fun x => (x / d * d = x)%N) v0))).
+Proof. exact transform_links_spec. Qed.
+Print Assumptions transform_links.
+
+Theorem transform_links_zeroes_diagonal :
+  forall nb v a b, (a < nb)%nat -> (b < nb)%nat -> length v = (nb * nb)%nat ->
+  nth (a * nb + b) (zero_diag nb nb v) 0%N = if (a =? b)%nat then 0%N else nth (a * nb + b) v 0%N.
+Proof.
+  intros. rewrite zero_diag_spec by auto. rewrite (proj2 (Nat.ltb_lt a nb)) by auto. rewrite andb_true_r. reflexivity.
+Qed.
+
+Example transform_links_nonvacuous :
+  fst (Distances.transform_links (PDist 0 2 [None; None] 8 [7;50;25;9]%N)) = PDist 0 2 [None; None] 8 [0;2;1;0]%N.
+Proof. vm_compute. reflexivity. Qed.
+
+(* ---------------- grouping (accuracy 0.0) ---------------- *)
+Theorem grouping_matrix_check :
+  forall nb v,
+  check_grouping_matrix nb v = true <->
+  forall i j, (i < j)%nat -> (j < nb)%nat ->
+    vget v (i * nb + j) = vget v (j * nb + i) /\ (vget v (i * nb + i) < vget v (i * nb + j))%N.
+Proof. exact check_grouping_matrix_spec. Qed.
+
+Theorem grouping_min_distance :
+  forall nb v,
+  let m := min_distance nb v in
+  (forall i j, (i < nb)%nat -> (j < nb)%nat -> i <> j -> (m <= vget v (i * nb + j))%N) /\
+  (m = UINT64_MAX \/ exists i j, (i < nb)%nat /\ (j < nb)%nat /\ i <> j /\ m = vget v (i * nb + j)).
+Proof. exact min_distance_spec. Qed.
+Print Assumptions grouping_min_distance.
